@@ -52,6 +52,9 @@ def check(ctx):
     # who stores into the matrix, and at which index expression (per-system offset of the batched CSR block): shared with C02.R7
     from .c02 import jac_writers
     jac_writers(ctx, "R6")
+    # each rendering is computed from the network of that call: the renderer keeps no memo between two renderings (shared with C17.R7)
+    from .c17 import stateless_renderer
+    stateless_renderer(ctx, package(ctx.tree), "R7")
 
 
 # ------------------------------------------------------------------ R1
